@@ -19,6 +19,7 @@ func DictFunc(f func(Dict)) Dict {
 }
 
 func (d Dict) render(f *File, w io.Writer, s *Statement) error {
+	verifHookObj("dict", f, d, nil)
 	first := true
 	// must order keys to ensure repeatable source
 	type kv struct {
@@ -36,6 +37,7 @@ func (d Dict) render(f *File, w io.Writer, s *Statement) error {
 			return err
 		}
 		verifHook("dictkey", f, buf.String())
+		verifHookObj("dictkey", f, d, k)
 		keys = append(keys, buf.String())
 		lookup[buf.String()] = kv{k: k, v: v}
 	}
